@@ -493,6 +493,23 @@ tj_unreach = [(w, len(re.findall(r"\b%s\b" % w, tj_c))) for w in
               ("JCROP_FORCE", "JCROP_REFLECT", "JXFORM_WIPE", "JXFORM_DROP", "drop_ptr", "drop_coef_arrays", "JCROP_NEG")]
 tj_sets = sorted(set(re.findall(r"xinfo\[i\]\.(\w+)\s*=", tj_c)))
 
+# ---- error exits of tj3Transform / tjTransform after the header was read must pass through bailout's abort
+errpaths = []
+for fn in ("tj3Transform", "tjTransform"):
+    bd = func_body(tj_c, fn)
+    k = bd.find("jpeg_read_header")
+    b = bd.find("bailout:")
+    if k < 0 or b < 0 or b < k:
+        die("%s: jpeg_read_header / bailout: not found in this order" % fn)
+    early = len(re.findall(r"\breturn\b", bd[k:b]))
+    tail = bd[b:]
+    aborts = bool(re.search(r"global_state\s*>\s*DSTATE_START\s*\)\s*jpeg_abort_decompress\s*\(\s*dinfo\s*\)", tail))
+    nret = len(re.findall(r"\breturn\b", tail))
+    errpaths.append((fn, early, aborts, nret))
+# tj3Transform reuses a pre-read header only in this state test (the reason the abort matters)
+if not re.search(r"global_state\s*<=\s*DSTATE_INHEADER\s*\)\s*jpeg_read_header", func_body(tj_c, "tj3Transform")):
+    die("tj3Transform: header re-use test (global_state <= DSTATE_INHEADER) not found")
+
 # ---- adjust_parameters: who calls transpose_critical_parameters
 ac = switch_cases(func_body(transupp_c, "jtransform_adjust_parameters"))
 crit = [(xn, "transpose_critical_parameters" in ac.get(jxn, ac.get("default", ""))) for jxn, xn in XOP.items()]
@@ -581,6 +598,8 @@ out.append("Local Open Scope nat_scope.")
 out.append("(* in-block loops in order of appearance per routine: (destination index, source index, negated) in execution order *)")
 out.append("Definition gen_inblock : list (string * list (list (nat * nat * bool))) := [%s]." % ";\n  ".join(
     '("%s"%%string, [%s])' % (r, "; ".join("[%s]" % "; ".join("(%d, %d, %s)" % (a, c, b(n)) for a, c, n in l) for l in ls)) for r, ls in inblock))
+out.append("(* function, `return` statements between jpeg_read_header and bailout:, bailout aborts the decompressor, returns after bailout: *)")
+out.append("Definition gen_tj_errpaths : list (string * nat * bool * nat) := [%s]." % "; ".join('("%s"%%string, %d, %s, %d)' % (f, e, b(a), n) for f, e, a, n in errpaths))
 out.append("(* occurrences in turbojpeg.c of the transupp.c features outside the model; fields of jpeg_transform_info it assigns *)")
 out.append("Definition gen_tj_unreachable : list (string * nat) := [%s]." % "; ".join('("%s"%%string, %d)' % e for e in tj_unreach))
 out.append("Local Close Scope nat_scope.")
